@@ -40,12 +40,19 @@ func projectSel(o map[string]any, sel string) (map[string]any, bool) {
 				return out, ok
 			}
 			pos++
+			// a field with arguments (`size(unit:CM)`): the single server and the
+			// owning subgraph hold a function and evaluate it with the field set's
+			// arguments; a representation holds the plain value under the field name
+			t, targs := splitSelToken(t)
 			if pos < len(toks) && toks[pos] == "{" {
 				pos++
 				var sub map[string]any
 				isNull := false
 				if o != nil {
 					raw, has := o[t]
+					if fn, isFn := raw.(Fn); isFn {
+						raw = fn(targs)
+					}
 					if has && raw == nil {
 						isNull = true
 					}
@@ -72,6 +79,9 @@ func projectSel(o map[string]any, sel string) (map[string]any, bool) {
 			v, has := o[t]
 			if !has {
 				ok = false
+			}
+			if fn, isFn := v.(Fn); isFn {
+				v = fn(targs)
 			}
 			out[t] = scalarOnly(v)
 		}
